@@ -224,35 +224,168 @@ impl Faults {
         if w.dead {
             return;
         }
-        let vm = &w.vm;
-        let files: Vec<_> = w.files.iter().flatten().cloned().collect();
-        let dirs: Vec<_> = w.dirs.iter().flatten().cloned().collect();
-        let vols: Vec<_> = w.vols.iter().flatten().cloned().collect();
-        let r = catch_quiet(|| -> Result<(), String> {
-            for h in &files {
-                vm.file_length(*h).map_err(|e| format!("file_length: {:?}", map_err(&e)))?;
-                vm.file_seek_from_start(*h, 0).map_err(|e| format!("seek: {:?}", map_err(&e)))?;
-                let mut b = [0u8; 16];
-                vm.read(*h, &mut b).map_err(|e| format!("read: {:?}", map_err(&e)))?;
-            }
-            for d in &dirs {
-                vm.iterate_dir(*d, |_| {}).map_err(|e| format!("iterate_dir: {:?}", map_err(&e)))?;
-            }
-            for h in &files {
-                vm.close_file(*h).map_err(|e| format!("close_file: {:?}", map_err(&e)))?;
-            }
-            for d in &dirs {
-                vm.close_dir(*d).map_err(|e| format!("close_dir: {:?}", map_err(&e)))?;
-            }
-            for v in &vols {
-                vm.close_volume(*v).map_err(|e| format!("close_volume: {:?}", map_err(&e)))?;
-            }
-            Ok(())
-        });
-        match r {
+        match drain(&w) {
             Caught::Ok(Ok(())) => {}
             Caught::Ok(Err(e)) => out.push(viol("C11", format!("handle-unusable-after-fault@{}/{}", last.kind(), tag), format!("after failed {}: {}", what, e), sc, hist)),
             Caught::Panic(m) => out.push(viol("C11", format!("panic-after-fault@{}/{}", last.kind(), tag), format!("after failed {}: {}", what, m), sc, hist)),
+        }
+    }
+}
+
+/// Use every handle the harness holds, close them all, close the volumes, and demand that nothing stays open.
+fn drain(w: &World) -> Caught<Result<(), String>> {
+    let vm = &w.vm;
+    let files: Vec<_> = w.files.iter().flatten().cloned().collect();
+    let dirs: Vec<_> = w.dirs.iter().flatten().cloned().collect();
+    let vols: Vec<_> = w.vols.iter().flatten().cloned().collect();
+    catch_quiet(|| -> Result<(), String> {
+        for h in &files {
+            vm.file_length(*h).map_err(|e| format!("file_length: {:?}", map_err(&e)))?;
+            vm.file_seek_from_start(*h, 0).map_err(|e| format!("seek: {:?}", map_err(&e)))?;
+            let mut b = [0u8; 16];
+            vm.read(*h, &mut b).map_err(|e| format!("read: {:?}", map_err(&e)))?;
+        }
+        for d in &dirs {
+            vm.iterate_dir(*d, |_| {}).map_err(|e| format!("iterate_dir: {:?}", map_err(&e)))?;
+        }
+        for h in &files {
+            vm.close_file(*h).map_err(|e| format!("close_file: {:?}", map_err(&e)))?;
+        }
+        for d in &dirs {
+            vm.close_dir(*d).map_err(|e| format!("close_dir: {:?}", map_err(&e)))?;
+        }
+        for v in &vols {
+            vm.close_volume(*v).map_err(|e| format!("close_volume: {:?}", map_err(&e)))?;
+        }
+        if vm.has_open_handles() {
+            return Err("has_open_handles() is still true after every handle the caller holds was closed".into());
+        }
+        Ok(())
+    })
+}
+
+/// Calls of the public API that are not part of the operation alphabet (they do not change the abstract state).
+#[derive(Clone, Copy, Debug)]
+enum Extra {
+    Label(usize),
+    ListLfn(usize),
+}
+
+impl Extra {
+    fn show(&self) -> String {
+        match self {
+            Extra::Label(v) => format!("get_root_volume_label(v{})", v),
+            Extra::ListLfn(d) => format!("iterate_dir_lfn(d{})", d),
+        }
+    }
+    fn kind(&self) -> &'static str {
+        match self {
+            Extra::Label(_) => "get_root_volume_label",
+            Extra::ListLfn(_) => "iterate_dir_lfn",
+        }
+    }
+    fn run(&self, w: &World) -> Caught<Result<String, E>> {
+        let vm = &w.vm;
+        match *self {
+            Extra::Label(v) => {
+                let h = w.vols[v].unwrap();
+                catch_quiet(|| vm.get_root_volume_label(h).map(|l| format!("{:?}", l)).map_err(|e| map_err(&e)))
+            }
+            Extra::ListLfn(d) => {
+                let h = w.dirs[d].unwrap();
+                catch_quiet(|| {
+                    let mut store = [0u8; 96];
+                    let mut lb = embedded_sdmmc::LfnBuffer::new(&mut store);
+                    let mut names: Vec<String> = Vec::new();
+                    vm.iterate_dir_lfn(h, &mut lb, |de, l| names.push(format!("{}:{:?}", de.name, l))).map(|_| names.join(",")).map_err(|e| map_err(&e))
+                })
+            }
+        }
+    }
+}
+
+pub static EXTRA_FAULT_RUNS: std::sync::atomic::AtomicU64 = std::sync::atomic::AtomicU64::new(0);
+
+fn extra_faults(sc: &Scenario, hist: &[Op], w: &World, out: &mut Vec<Violation>) {
+    if w.dead {
+        return;
+    }
+    let mut xs: Vec<Extra> = Vec::new();
+    for v in 0..w.vols.len() {
+        if w.vols[v].is_some() {
+            xs.push(Extra::Label(v));
+        }
+    }
+    for d in 0..w.dirs.len() {
+        if w.dirs[d].is_some() {
+            xs.push(Extra::ListLfn(d));
+        }
+    }
+    for x in xs {
+        let w0 = sc.replay(hist);
+        if w0.dead {
+            return;
+        }
+        let before = w0.disk.calls();
+        w0.disk.take_log();
+        w0.disk.0.borrow_mut().logging = true;
+        let base = match x.run(&w0) {
+            Caught::Ok(Ok(s)) => s,
+            Caught::Ok(Err(_)) => continue,
+            Caught::Panic(m) => {
+                out.push(viol("C11", format!("panic@{}/no-fault", x.kind()), format!("{} panics without any device fault: {}", x.show(), m), sc, hist));
+                continue;
+            }
+        };
+        let log = w0.disk.take_log();
+        let n = w0.disk.calls() - before;
+        for k in 0..n {
+            let w1 = sc.replay(hist);
+            if w1.dead || w1.disk.calls() != before {
+                crate::engine::machinery_fail("replay is not deterministic (extra-call fault probe)");
+            }
+            let call = log.get(k as usize);
+            let tag = match call {
+                Some(c) => format!("{}/{}", if c.write { "write" } else { "read" }, region_of(sc, c.idx)),
+                None => "call".to_string(),
+            };
+            let what = format!("device call {} of {} of {} ({})", k + 1, n, x.show(), tag);
+            let fired0 = w1.disk.0.borrow().fired;
+            w1.disk.set_faults(vec![before + k]);
+            let r = x.run(&w1);
+            let fired = w1.disk.0.borrow().fired - fired0;
+            w1.disk.set_faults(vec![]);
+            if fired != 1 {
+                crate::engine::machinery_fail(&format!("fault at call {} of {} did not fire exactly once ({})", k, x.show(), fired));
+            }
+            EXTRA_FAULT_RUNS.fetch_add(1, std::sync::atomic::Ordering::Relaxed);
+            FAULT_RUNS.fetch_add(1, std::sync::atomic::Ordering::Relaxed);
+            *FAULT_KINDS.lock().unwrap().entry(format!("{}:{}", x.kind(), tag)).or_insert(0) += 1;
+            match r {
+                Caught::Ok(Err(_)) => {}
+                Caught::Ok(Ok(s)) => out.push(viol("C11", format!("error-swallowed@{}/{}", x.kind(), tag), format!("failed {}: the call returned Ok({}) instead of an error", what, s), sc, hist)),
+                Caught::Panic(m) if m.contains("HORIZON") => {
+                    out.push(viol("C11", format!("hang@{}/{}", x.kind(), tag), format!("failed {}: the call did not return within the device-call horizon", what), sc, hist));
+                    continue;
+                }
+                Caught::Panic(m) => {
+                    out.push(viol("C11", format!("panic@{}/{}", x.kind(), tag), format!("failed {}: panic: {}", what, m), sc, hist));
+                    continue;
+                }
+            }
+            // the retried call gives the fault-free answer
+            match x.run(&w1) {
+                Caught::Ok(Ok(s)) if s == base => {}
+                Caught::Ok(Ok(s)) => out.push(viol("C11", format!("retry-wrong-answer@{}/{}", x.kind(), tag), format!("after failed {}: the retried call returned {} but the fault-free answer is {}", what, s, base), sc, hist)),
+                Caught::Ok(Err(e)) => out.push(viol("C11", format!("retry-fails@{}/{}", x.kind(), tag), format!("after failed {}: the retried call -> {:?}", what, e), sc, hist)),
+                Caught::Panic(m) => out.push(viol("C11", format!("retry-panics@{}/{}", x.kind(), tag), format!("after failed {}: {}", what, m), sc, hist)),
+            }
+            // nothing stays open behind the caller's back
+            match drain(&w1) {
+                Caught::Ok(Ok(())) => {}
+                Caught::Ok(Err(e)) => out.push(viol("C11", format!("handle-unusable-after-fault@{}/{}", x.kind(), tag), format!("after failed {}: {}", what, e), sc, hist)),
+                Caught::Panic(m) => out.push(viol("C11", format!("panic-after-fault@{}/{}", x.kind(), tag), format!("after failed {}: {}", what, m), sc, hist)),
+            }
         }
     }
 }
@@ -283,6 +416,9 @@ fn target_path(m: &Model, op: &Op) -> Option<String> {
 }
 
 impl Oracle for Faults {
+    fn on_new_state(&self, sc: &Scenario, hist: &[Op], w: &World, out: &mut Vec<Violation>) {
+        extra_faults(sc, hist, w, out);
+    }
     fn check(&self, sc: &Scenario, hist: &[Op], _w: &World, st: &Step, out: &mut Vec<Violation>) {
         if st.log.is_empty() || matches!(st.res, Res::Panic(_)) {
             return;
